@@ -13,7 +13,7 @@ os.makedirs(wt + "/_seed", exist_ok=True)
 print(f"""You are helping to evaluate a verification tool for the Python project pkgcore (a Gentoo package manager framework). Your job: produce realistic *bugs* (mutations) that break one stated property of pkgcore while slipping past the existing test suite.
 
 Work ONLY inside the git worktree {wt} (a checkout of pkgcore at the pinned commit). Do NOT read, list or modify anything under /repo or /verif. Run Python as `/venv/bin/python` and ALWAYS with `PYTHONPATH={wt}/src` so that the worktree's code is imported (without it the wrong copy is imported). The test suite is run as:
-  cd {wt} && PYTHONPATH={wt}/src /venv/bin/python -m pytest -q -p no:cacheprovider --timeout=900 -x --deselect tests/ebuild/test_eapi.py::TestEAPI::test_system_bash_supports_bundled_eapis
+  cd {wt} && PYTHONPATH={wt}/src /venv/bin/python -m pytest -q -p no:cacheprovider --timeout=900 -x --basetemp=/tmp/seed/bt-$$ --deselect tests/ebuild/test_eapi.py::TestEAPI::test_system_bash_supports_bundled_eapis
 (~15 s; that one deselected test fails on the clean tree already.) There is no network.
 
 THE PROPERTY ({pid}): {p['title']}
